@@ -9,6 +9,22 @@ COMMON_NOTE = ("Trusted base: CPython 3.12, numpy/scipy, icontract (or vlib.atta
                "(independent of molgri, see DESIGN.md section 3.2/5). Decides only the executions produced; nothing is 'verified'.")
 
 CHECKS = {
+    "C03": dict(
+        technique="runtime monitors (postconditions on the Voronoi getters of every 3-D grid object) against a pure-numpy bisector-arc oracle; sweep over every N",
+        text="Every adjacency / border / centre-distance / area result of the real direction-grid objects is compared, pair by pair, with an "
+             "independent oracle (border of cells i,j = largest angular gap of the constraint directions on the bisector circle minus pi; areas by "
+             "triangle sums; no scipy geometry) plus symmetry / empty diagonal / positivity / common-pattern predicates. Workload: ico, cube3D, "
+             "randomS at ~46 values of N (quick) or every N in 4..300 and 386/387/642/643 (thorough). The same monitors run inside the C05/C02/"
+             "C09/C14 workloads.",
+        design_ref="5/C03"),
+    "C05": dict(
+        technique="runtime monitors (postconditions on the PositionGrid getters, spherical mode) against closed shell formulas fed by the independent sphere oracle and an exact re-reading of the radial text",
+        text="Every volume / adjacency / border / distance result of real PositionGrid objects is compared cell by cell and pair by pair with the "
+             "closed formulas of the statement (areas, arcs, angles from the C03 oracle; radii re-read from the text with Fractions) and the three "
+             "sum rules. Workload: random grids (3 algorithms, N 4..60, T 1..6, unequal increments up to ratio 50, five text syntaxes, radial "
+             "scales from sub-picometre to micrometre), getters in random order, repeated, stand-alone and through a FullGrid whose own scaled "
+             "matrices were requested first.",
+        design_ref="5/C05"),
     "C17": dict(
         technique="outcome monitor (results and exception classes) on GridNameParser.__init__ against a relational specification over the token language; exhaustive enumeration",
         text="Every parse of the real GridNameParser (both roles) is judged - whether it returned or raised - by a relational specification "
